@@ -1209,7 +1209,11 @@ pub mod dop {
     pub const DEFAULT_WIDTH_X: u16 = 20;
     pub const NOMINAL_WIDTH_X: u16 = 21;
     pub const VSINDEX: u16 = 22;
+    pub const BLEND: u16 = 23;
     pub const VSTORE: u16 = 24;
+    pub const STD_HW: u16 = 10;
+    pub const STD_VW: u16 = 11;
+    pub const BLUE_VALUES: u16 = 6;
     pub const FONT_BBOX: u16 = 5;
     pub const ROS: u16 = 0x0c00 | 30;
     pub const CID_COUNT: u16 = 0x0c00 | 34;
@@ -1261,6 +1265,8 @@ pub struct PrivateSpec {
     pub nominal_width_x: Option<i32>,
     /// CFF2 only: vsindex operator in the Private DICT
     pub vsindex: Option<u16>,
+    /// raw DICT bytes (complete operand(s) + operator entries, e.g. a blended StdHW) placed after vsindex and before Subrs
+    pub extra: Vec<u8>,
 }
 
 #[derive(Clone, Debug, PartialEq)]
@@ -1351,6 +1357,7 @@ fn private_bytes(p: &PrivateSpec) -> Vec<u8> {
         dict_int(v as i32, &mut body);
         dict_op(dop::VSINDEX, &mut body);
     }
+    body.extend_from_slice(&p.extra);
     if p.subrs.is_some() {
         let len = body.len() + 5 + 1;
         dict_int5(len as i32, &mut body);
